@@ -21,7 +21,7 @@ WORLD_CALLEES = [
     'FileTime :: now', 'std :: time :: SystemTime :: now', 'SystemTime :: now',
     'move_to_back_of_list', 'set_read_only', 'ensure_file_removed', 'ensure_file_touched', 'raw_cache :: ensure_file_touched',
     'collect_cached_files', 'apply_update', 'raw_cache :: prune', 'prune', 'ensure_directory', 'cleanup_temporary_directory',
-    '. seek', '. sync_all', '. ensure_temp_dir', '. cleanup_temp_directory', '. definitely_cleanup', '. maybe_cleanup', '. maintain', '. event', '. weighted_event',
+    'libc :: close', 'close', '. seek', '. sync_all', '. sync_all_or_panic', '. set_permissions', 'NamedTempFile :: new_in', 'finalize_tempfile', 'fix_tempfile_permissions', '. finalize_tempfile', '. maybe_sync_path', '. set_impl', '. put_impl', '. ensure_temp_dir', '. cleanup_temp_directory', '. definitely_cleanup', '. maybe_cleanup', '. maintain', '. event', '. weighted_event',
 ]
 
 
@@ -1046,6 +1046,20 @@ pub open spec fn value_ready(w: World, value: PathV, base: PathV, name: Seq<u8>)
         &&& (w.must_sync ==> w.inode_at(value).synced)
         &&& forall|q: PathV| #[trigger] w.files.contains_key(q) && w.files[q] == w.files[value] ==> !w.in_cache_namespace(q)
     }
+}
+
+/// The generic hand-over condition implies the directory-level one for any configured cache directory.
+pub proof fn lemma_value_ready(w: World, value: PathV, base: PathV, name: Seq<u8>)
+    requires
+        w.env_ok(),
+        w.value_ok(value, name, w.must_sync),
+        valid_key(name),
+        w.cache_dirs.contains(base),
+    ensures
+        value_ready(w, value, base, name),
+{
+    lemma_child(base, name);
+    assert(w.in_cache_namespace(child(base, name)));
 }
 
 pub proof fn lemma_ready_after_cleanup(old: World, m: World, value: PathV, base: PathV, name: Seq<u8>)
